@@ -44,52 +44,63 @@ theorem encValue_length (e : Endian) (v : HVal) :
   | num c raw => simp [encValue]
   | text c s => simp [encValue]; omega
 
+theorem utf8_ascii_length (s : List Char) (hall : ∀ ch ∈ s, ch.toNat < 128) : (utf8Encode s).length = s.length := by
+  induction s with
+  | nil => rfl
+  | cons ch t ih =>
+    have h1 : ch.toNat < 128 := hall ch (by simp)
+    have : utf8EncodeChar ch = [UInt8.ofNat ch.toNat] := by
+      simp only [utf8EncodeChar]
+      rw [if_pos (by omega)]
+    simp only [utf8Encode, this, List.length_append, List.length_cons, List.length_nil]
+    rw [ih (fun c hc => hall c (by simp [hc]))]
+    omega
+
+theorem text_len_ok (c : Basic) (s : List Char) (hwf : (HVal.text c s).wf = true) :
+    (utf8Encode s).length < 256 ^ (if c = Basic.g then 1 else 4) := by
+  simp only [HVal.wf, Bool.and_eq_true, Bool.not_eq_true'] at hwf
+  obtain ⟨⟨ht, hn⟩, hl⟩ := hwf
+  by_cases hg : c = .g
+  · simp only [hg, if_true, Bool.and_eq_true, decide_eq_true_eq] at hl ⊢
+    obtain ⟨hasc, hl⟩ := hl
+    have hall : ∀ ch ∈ s, ch.toNat < 128 := by
+      intro ch hch
+      have := List.all_eq_true.mp hasc ch hch
+      simpa using this
+    rw [utf8_ascii_length s hall]; omega
+  · simp only [hg, if_false, decide_eq_true_eq] at hl ⊢
+    omega
+
+theorem decValue_text (e : Endian) (c : Basic) (s : List Char) (hwf : (HVal.text c s).wf = true) (rest : Bytes) :
+    decValue e c (encValue e (.text c s) ++ rest) = some (.text c s, rest, (encValue e (.text c s)).length) := by
+  have hlen := text_len_ok c s hwf
+  have ht : isText c = true := by
+    simp only [HVal.wf, Bool.and_eq_true] at hwf; exact hwf.1.1
+  unfold decValue
+  simp only [ht, encValue, if_true, List.append_assoc]
+  generalize (if c = Basic.g then 1 else 4) = w at hlen ⊢
+  rw [takeExact_append w _ _ (encUInt_length e _ _)]
+  simp only [decUInt_encUInt e _ _ hlen]
+  rw [takeExact_append _ _ _ rfl]
+  simp only [List.cons_append, List.nil_append, utf8Decode_encode, hwf, if_true, encUInt_length,
+    List.length_append, List.length_cons, List.length_nil]
+  congr 3
+
+theorem decValue_num (e : Endian) (c : Basic) (raw : Nat) (hwf : (HVal.num c raw).wf = true) (rest : Bytes) :
+    decValue e c (encValue e (.num c raw) ++ rest) = some (.num c raw, rest, (encValue e (.num c raw)).length) := by
+  have hv := hwf
+  simp only [HVal.wf, Bool.and_eq_true, Bool.not_eq_true', decide_eq_true_eq] at hv
+  obtain ⟨⟨ht, hr⟩, hb⟩ := hv
+  unfold decValue
+  simp only [ht, encValue, Bool.false_eq_true, if_false]
+  rw [takeExact_append _ _ _ (encUInt_length e _ _)]
+  simp only [decUInt_encUInt e _ _ hr, hwf, if_true, encUInt_length]
+
 theorem decValue_encValue (e : Endian) (v : HVal) (hv : v.wf = true) (rest : Bytes) :
     decValue e v.ty (encValue e v ++ rest) = some (v, rest, (encValue e v).length) := by
   cases v with
-  | num c raw =>
-    simp only [HVal.wf, Bool.and_eq_true, Bool.not_eq_true', decide_eq_true_eq] at hv
-    obtain ⟨⟨ht, hr⟩, hb⟩ := hv
-    have hwf : (HVal.num c raw).wf = true := by
-      simp only [HVal.wf, Bool.and_eq_true, Bool.not_eq_true', decide_eq_true_eq]
-      exact ⟨⟨ht, hr⟩, hb⟩
-    simp only [HVal.ty, decValue, ht, encValue, Bool.false_eq_true, if_false]
-    rw [takeExact_append _ _ _ (encUInt_length e _ _)]
-    simp only [decUInt_encUInt e _ _ hr, hwf, if_true, encUInt_length]
-  | text c s =>
-    have hwf := hv
-    simp only [HVal.wf, Bool.and_eq_true, Bool.not_eq_true'] at hv
-    obtain ⟨⟨ht, hn⟩, hl⟩ := hv
-    have hlen : (utf8Encode s).length < 256 ^ (if c = Basic.g then 1 else 4) := by
-      by_cases hg : c = .g
-      · simp only [hg, if_true, Bool.and_eq_true, decide_eq_true_eq] at hl ⊢
-        obtain ⟨hasc, hl⟩ := hl
-        have : (utf8Encode s).length = s.length := by
-          have hall : ∀ ch ∈ s, ch.toNat < 128 := by
-            intro ch hch
-            have := List.all_eq_true.mp hasc ch hch
-            simpa using this
-          clear hasc hl hn hwf
-          induction s with
-          | nil => rfl
-          | cons ch t ih =>
-            have h1 : ch.toNat < 128 := hall ch (by simp)
-            have : utf8EncodeChar ch = [UInt8.ofNat ch.toNat] := by
-              simp only [utf8EncodeChar]
-              rw [if_pos (by omega)]
-            simp only [utf8Encode, this, List.length_append, List.length_cons, List.length_nil]
-            rw [ih (fun c hc => hall c (by simp [hc]))]
-            omega
-        omega
-      · simp only [hg, if_false, decide_eq_true_eq] at hl ⊢
-        omega
-    simp only [HVal.ty, decValue, ht, encValue, if_true, List.append_assoc]
-    generalize (if c = Basic.g then 1 else 4) = w at hlen ⊢
-    rw [takeExact_append w _ _ (encUInt_length e _ _)]
-    simp only [decUInt_encUInt e _ _ hlen]
-    rw [takeExact_append _ _ _ rfl]
-    simp only [List.cons_append, List.nil_append, utf8Decode_encode, hwf, if_true, encUInt_length,
-      List.length_append, List.length_cons, List.length_nil]
+  | num c raw => exact decValue_num e c raw hv rest
+  | text c s => exact decValue_text e c s hv rest
 
 theorem sigByte_code (c : Basic) : Basic.ofCode? (Char.ofNat (sigByte c).toNat) = some c := by
   cases c <;> decide
@@ -102,8 +113,8 @@ theorem encVariant_length (e : Endian) (off : Nat) (v : HVal) :
 
 theorem decVariant_encVariant (e : Endian) (off : Nat) (v : HVal) (hv : v.wf = true) (rest : Bytes) :
     decVariant e (encVariant e off v ++ rest) off = some (v, rest, off + (encVariant e off v).length) := by
-  simp only [encVariant, List.cons_append, List.nil_append, List.append_assoc, decVariant, sigByte_code]
-  rw [skipZeros_zeros, decValue_encValue e v hv]
+  simp only [encVariant, List.cons_append, List.nil_append, List.append_assoc, decVariant, sigByte_code,
+    skipZeros_zeros, decValue_encValue e v hv]
   simp only [List.length_cons, List.length_append, zeros_length, List.length_nil]
   congr 3
   omega
@@ -222,8 +233,19 @@ theorem decodeMsg_encodeMsg (m : SpecMsg) (hm : m.valid = true) : decodeMsg (enc
   have h1 : (UInt8.ofNat mt).toNat = mt := by simp only [UInt8.toNat_ofNat']; omega
   have h2 : (UInt8.ofNat fl).toNat = fl := by simp only [UInt8.toNat_ofNat']; omega
   simp only [h1, h2, hm', true_and]
-  rw [← hraw]
+  rw [hraw] at hlen
+  simp only [fieldArray, headerPad] at hlen
   simp only [hlen, if_true]
 
 end Spec
+
+theorem SpecMsg.encodable_of_valid (m : SpecMsg) (hm : m.valid = true) : m.encodable = true := by
+  simp only [SpecMsg.valid, Bool.and_eq_true, decide_eq_true_eq] at hm
+  obtain ⟨⟨⟨⟨⟨hty, hfl⟩, hse⟩, hfs⟩, har⟩, hlen⟩ := hm
+  have := Spec.encodeMsg_length m
+  simp only [Spec.maxMessage] at hlen
+  simp only [Spec.maxArray] at har
+  simp only [SpecMsg.encodable, Bool.and_eq_true, decide_eq_true_eq]
+  exact ⟨⟨⟨⟨⟨by omega, by omega⟩, by omega⟩, by omega⟩, by omega⟩, hfs⟩
+
 end Txdbus.Msg
